@@ -576,10 +576,10 @@ Definition hyphen_defaults (gk : str) (ms : list member) : bool :=
 Definition finding_class_m (gk : str) (ms : list member) (inp : input) : N :=
   let subs := map (fun n => gk ++ [c_dot] ++ n) (sub_names ms) in
   if negb (well_formed_m gk ms) then 6
-  else if hyphen_defaults gk ms then 8
   else if argv_names_group gk inp || existsb (fun k => argv_names_group k inp) subs then 1
   else if env_names_group gk inp || existsb (fun k => env_names_group k inp) subs then 2
   else if config_group_text gk inp || existsb (fun n => config_sub_is textish gk n inp) (sub_names ms) then 3
+  else if hyphen_defaults gk ms then 8
   else if config_group_nonmap gk inp || existsb (fun n => config_sub_is nonmap gk n inp) (sub_names ms) then 4
   else if has_nested ms then 7
   else 0.
